@@ -98,6 +98,18 @@ structure Ctx where
   navSpans : List Nat := []
   /-- Punctuator::oddness_ : the paired-punctuation definitions (shape, key) whose oddness is 1 -/
   punctOdd : List (Bool × UInt8) := []
+  /-- KeyBinder::last_key_ : keycode of the last key press without modifiers the key binder looked at (0 otherwise) -/
+  kbLastKey : Int := 0
+  /-- AsciiComposer::shift_key_pressed_ / ctrl_key_pressed_ / toggle_with_caps_ -/
+  acShift : Bool := false
+  acCtrl : Bool := false
+  acToggleWithCaps : Bool := false
+  /-- AsciiComposer::toggle_expired_, in ms on `clock` -/
+  acExpire : Nat := 0
+  /-- AsciiComposer::connection_ is connected to the context's update notifier (temporary "inline" ascii mode) -/
+  acInline : Bool := false
+  /-- the reading of std::chrono::steady_clock in ms: a parameter of the model, moved only by the environment -/
+  clock : Nat := 0
   deriving Repr, DecidableEq, Inhabited
 
 def Ctx.getOption (c : Ctx) (name : String) : Bool :=
@@ -133,5 +145,43 @@ def punctFind (m : List (UInt8 × PunctDef)) (b : UInt8) : Option PunctDef :=
 
 /-- `PunctConfig::LoadConfig` + `GetPunctDefinition`: the mapping of the current shape -/
 def PunctCfg.mapping (p : PunctCfg) (fullShape : Bool) : List (UInt8 × PunctDef) := if fullShape then p.full else p.half
+
+/-- AsciiModeSwitchStyle (ascii_composer.h) of a loaded `ascii_composer/switch_key` entry (`noop` entries are not loaded) -/
+inductive AcStyle where
+  | inline | commitText | commitCode | clear
+  deriving Repr, DecidableEq, Inhabited
+
+/-! ### key_binder configuration (key_binder.cc: KeyBindings::LoadBindings) and `switches:` (switches.cc) -/
+
+/-- KeyBindingCondition (`when:`), in the order of the enum: a binding list of one key is kept sorted by it -/
+inductive KbWhen where
+  | predicting | paging | hasMenu | composing | always
+  deriving Repr, DecidableEq, Inhabited
+
+def KbWhen.rank : KbWhen → Nat
+  | .predicting => 1 | .paging => 2 | .hasMenu => 3 | .composing => 4 | .always => 5
+
+/-- what a binding does: `send:` / `send_sequence:` (a key sequence handed back to the engine; `send` is a sequence
+of one), `toggle:`, `set_option:`, `unset_option:`.  `select:` (schema switching) is outside the model. -/
+inductive KbAction where
+  | send (keys : List (Int × Nat))
+  | toggle (opt : String)
+  | setOption (opt : String)
+  | unsetOption (opt : String)
+  deriving Repr, DecidableEq, Inhabited
+
+/-- one loaded entry of `key_binder/bindings` (entries LoadBindings skips are not part of the list) -/
+structure KbBinding where
+  whence : KbWhen
+  code : Int
+  mask : Nat
+  action : KbAction
+  deriving Repr, DecidableEq, Inhabited
+
+/-- one entry of `switches:`: `{name: x, reset: r}` or `{options: [a, b, …], reset: r}` (`reset = -1`: not given) -/
+inductive SwitchDef where
+  | toggle (name : String) (reset : Int)
+  | radio (options : List String) (reset : Int)
+  deriving Repr, DecidableEq, Inhabited
 
 end RimeModel.Session
